@@ -288,6 +288,7 @@ type Position struct {
 	End   int
 }
 
+// A node that is a slice (Fields, Sources, ...) cannot be a key: only its elements are recorded.
 type BufPositionsMap map[Node]Position
 
 // Structure to represent single large expression string representation with ability
@@ -578,8 +579,6 @@ func (a Statements) UpdateDepthForTests() int {
 func (a Statements) String() string { return a.RenderBytes(&bytes.Buffer{}, nil).String() }
 
 func (a Statements) RenderBytes(buf *bytes.Buffer, posmap BufPositionsMap) *bytes.Buffer {
-	Begin := buf.Len()
-
 	for i, stmt := range a {
 		if i > 0 {
 			_, _ = buf.WriteString(";\n")
@@ -587,9 +586,6 @@ func (a Statements) RenderBytes(buf *bytes.Buffer, posmap BufPositionsMap) *byte
 		_ = stmt.RenderBytes(buf, posmap)
 	}
 
-	if posmap != nil {
-		posmap[a] = Position{Begin: Begin, End: buf.Len()}
-	}
 	return buf
 }
 
@@ -852,8 +848,6 @@ func (s Sources) UpdateDepthForTests() int {
 func (a Sources) String() string { return a.RenderBytes(&bytes.Buffer{}, nil).String() }
 
 func (a Sources) RenderBytes(buf *bytes.Buffer, posmap BufPositionsMap) *bytes.Buffer {
-	Begin := buf.Len()
-
 	for i, src := range a {
 		if i > 0 {
 			_, _ = buf.WriteString(", ")
@@ -861,9 +855,6 @@ func (a Sources) RenderBytes(buf *bytes.Buffer, posmap BufPositionsMap) *bytes.B
 		_ = src.RenderBytes(buf, posmap)
 	}
 
-	if posmap != nil {
-		posmap[a] = Position{Begin: Begin, End: buf.Len()}
-	}
 	return buf
 }
 
@@ -1107,8 +1098,6 @@ func (a SortFields) UpdateDepthForTests() int {
 func (a SortFields) String() string { return a.RenderBytes(&bytes.Buffer{}, nil).String() }
 
 func (a SortFields) RenderBytes(buf *bytes.Buffer, posmap BufPositionsMap) *bytes.Buffer {
-	Begin := buf.Len()
-
 	for i, field := range a {
 		if i > 0 {
 			_, _ = buf.WriteString(", ")
@@ -1116,9 +1105,6 @@ func (a SortFields) RenderBytes(buf *bytes.Buffer, posmap BufPositionsMap) *byte
 		_ = field.RenderBytes(buf, posmap)
 	}
 
-	if posmap != nil {
-		posmap[a] = Position{Begin: Begin, End: buf.Len()}
-	}
 	return buf
 }
 
@@ -6872,8 +6858,6 @@ func (a Fields) Names() []string {
 func (a Fields) String() string { return a.RenderBytes(&bytes.Buffer{}, nil).String() }
 
 func (a Fields) RenderBytes(buf *bytes.Buffer, posmap BufPositionsMap) *bytes.Buffer {
-	Begin := buf.Len()
-
 	for i, f := range a {
 		if i > 0 {
 			_, _ = buf.WriteString(", ")
@@ -6881,9 +6865,6 @@ func (a Fields) RenderBytes(buf *bytes.Buffer, posmap BufPositionsMap) *bytes.Bu
 		_ = f.RenderBytes(buf, posmap)
 	}
 
-	if posmap != nil {
-		posmap[a] = Position{Begin: Begin, End: buf.Len()}
-	}
 	return buf
 }
 
@@ -6988,8 +6969,6 @@ func (a Dimensions) UpdateDepthForTests() int {
 func (a Dimensions) String() string { return a.RenderBytes(&bytes.Buffer{}, nil).String() }
 
 func (a Dimensions) RenderBytes(buf *bytes.Buffer, posmap BufPositionsMap) *bytes.Buffer {
-	Begin := buf.Len()
-
 	for i, d := range a {
 		if i > 0 {
 			_, _ = buf.WriteString(", ")
@@ -6997,9 +6976,6 @@ func (a Dimensions) RenderBytes(buf *bytes.Buffer, posmap BufPositionsMap) *byte
 		_ = d.RenderBytes(buf, posmap)
 	}
 
-	if posmap != nil {
-		posmap[a] = Position{Begin: Begin, End: buf.Len()}
-	}
 	return buf
 }
 
@@ -7087,8 +7063,6 @@ type Hints []*Hint
 func (a Hints) String() string { return a.RenderBytes(&bytes.Buffer{}, nil).String() }
 
 func (a Hints) RenderBytes(buf *bytes.Buffer, posmap BufPositionsMap) *bytes.Buffer {
-	Begin := buf.Len()
-
 	for i, h := range a {
 		if i > 0 {
 			buf.WriteString(", ")
@@ -7096,9 +7070,6 @@ func (a Hints) RenderBytes(buf *bytes.Buffer, posmap BufPositionsMap) *bytes.Buf
 		_ = h.RenderBytes(buf, posmap)
 	}
 
-	if posmap != nil {
-		posmap[a] = Position{Begin: Begin, End: buf.Len()}
-	}
 	return buf
 }
 
@@ -7109,8 +7080,6 @@ type Measurements []*Measurement
 func (a Measurements) String() string { return a.RenderBytes(&bytes.Buffer{}, nil).String() }
 
 func (a Measurements) RenderBytes(buf *bytes.Buffer, posmap BufPositionsMap) *bytes.Buffer {
-	Begin := buf.Len()
-
 	for i, m := range a {
 		if i > 0 {
 			_, _ = buf.WriteString(", ")
@@ -7118,9 +7087,6 @@ func (a Measurements) RenderBytes(buf *bytes.Buffer, posmap BufPositionsMap) *by
 		_ = m.RenderBytes(buf, posmap)
 	}
 
-	if posmap != nil {
-		posmap[a] = Position{Begin: Begin, End: buf.Len()}
-	}
 	return buf
 }
 
@@ -7965,6 +7931,68 @@ func (l *NumberLiteral) RewriteNameSpace(alias, mst string) {}
 
 // String returns a string representation of the literal.
 func (l *NumberLiteral) String() string { return l.RenderBytes(&bytes.Buffer{}, nil).String() }
+
+// ShipString renders a node for another process that will parse the text again (conditions, select lists and sources
+// travel to the storage nodes as text). It is String() with two additions that make the text mean the same tree when it
+// is read again, found through the positions RenderBytes records:
+//   - a number literal with an integral value keeps a fractional part ("2.0"); read back as "2" it would become an
+//     integer literal and `iv / 2.0` an integer division;
+//   - an operand of a binary expression that is itself a binary expression without a ParenExpr around it is put in
+//     parentheses when a reader would group it differently: it binds weaker than its parent, or it is the right operand
+//     and binds equally (operators are left-associative; a chain of ANDs or of ORs means the same however it is grouped).
+func ShipString(n Node) string {
+	buf := &bytes.Buffer{}
+	posmap := BufPositionsMap{}
+	_ = n.RenderBytes(buf, posmap)
+
+	type insertion struct {
+		at   int
+		rank int // at one offset: ".0" before ")" before "("
+		text string
+	}
+	var ins []insertion
+	for node, pos := range posmap {
+		switch e := node.(type) {
+		case *NumberLiteral:
+			if e.Val == math.Trunc(e.Val) && !math.IsInf(e.Val, 0) && !(e.Val > math.MaxInt) {
+				ins = append(ins, insertion{pos.End, 0, ".0"})
+			}
+		case *BinaryExpr:
+			for i, operand := range []Expr{e.LHS, e.RHS} {
+				sub, ok := operand.(*BinaryExpr)
+				if !ok {
+					continue
+				}
+				regroup := sub.Op.Precedence() < e.Op.Precedence()
+				if i == 1 && sub.Op.Precedence() == e.Op.Precedence() {
+					regroup = !(sub.Op == e.Op && (e.Op == AND || e.Op == OR))
+				}
+				if sp, found := posmap[sub]; regroup && found {
+					ins = append(ins, insertion{sp.Begin, 2, "("}, insertion{sp.End, 1, ")"})
+				}
+			}
+		}
+	}
+	if len(ins) == 0 {
+		return buf.String()
+	}
+	sort.Slice(ins, func(i, j int) bool {
+		if ins[i].at != ins[j].at {
+			return ins[i].at < ins[j].at
+		}
+		return ins[i].rank < ins[j].rank
+	})
+	src := buf.String()
+	var out strings.Builder
+	prev := 0
+	for _, x := range ins {
+		out.WriteString(src[prev:x.at])
+		out.WriteString(x.text)
+		prev = x.at
+	}
+	out.WriteString(src[prev:])
+	return out.String()
+}
 
 func (l *NumberLiteral) RenderBytes(buf *bytes.Buffer, posmap BufPositionsMap) *bytes.Buffer {
 	Begin := buf.Len()
